@@ -542,7 +542,46 @@ def rule_records_canonical(ctx) -> None:
     ctx.floor("C06.TABLE", "record stores of the GEL normaliser", n_st, 3)
 
 
+def rule_own_snapshot(ctx) -> None:
+    """"loading the latest snapshot into a fresh state restores ... what was written" - by this agent: the snapshot directory is
+    one setting shared by all agents and the body is named state_<agent>.json, so the loader must ask for the loading agent's
+    own file (same name pattern as the writer) before it falls back to 'newest state_*.json', and the picker must honour that
+    before ranking by mtime."""
+    wr = ctx.func(SNAP + ":_snapshot_path")
+    wfmt = [x for x in walk_no_defs(wr.node) if isinstance(x, ast.JoinedStr)]
+    if not wfmt:
+        raise AnalysisError("anchor-vanished: the writer's snapshot file name pattern")
+    wlit = "".join(v.value for v in wfmt[0].values if isinstance(v, ast.Constant))
+    ld = ctx.func(SNAP + ":load_latest_snapshot")
+    rd = ctx.rd(ld)
+    cfg = ctx.cfg(ld)
+    picks = [(n, c) for n in cfg.nodes for c in node_calls(n) if call_tail(c) == "_pick_latest_snapshot_path"]
+    ctx.floor("C06.DISC", "snapshot pick in the boot loader", len(picks), 1)
+    for n, c in picks:
+        pref = kwarg(c, "prefer") or (c.args[1] if len(c.args) > 1 else None)
+        ok = False
+        if pref is not None:
+            inl = rd.inline(pref, n)
+            lits = "".join(v.value for x in ast.walk(inl) if isinstance(x, ast.JoinedStr) for v in x.values if isinstance(v, ast.Constant))
+            ok = ("agent_id" in src(inl)) and (lits == wlit or "_snapshot_path" in src(inl))
+        ctx.check(ok, "C06.DISC", f"{ld.qual}/asks-for-own-snapshot", ld.loc(c), f"the loader asks the picker for the loading agent's own body ({wlit.replace('.json', '<agent>.json')})",
+                  "the loader picks the newest snapshot of the shared directory without naming the loading agent: a fresh state of one agent is restored from another agent's snapshot whenever "
+                  "that one was written last")
+    pk = ctx.func(SNAP + ":_pick_latest_snapshot_path")
+    pcfg = ctx.cfg(pk)
+    if len(pk.params) > 1:
+        pname = pk.params[1]
+        own = [n for n in pcfg.nodes if n.kind == "stmt" and isinstance(n.ast, ast.Return) and n.ast.value is not None and pname in {y.id for y in ast.walk(n.ast.value) if isinstance(y, ast.Name)}]
+        ranked = [n for n in pcfg.nodes if any(call_tail(k) == "getmtime" for k in node_calls(n)) or (n.kind == "stmt" and isinstance(n.ast, ast.Expr) and "getmtime" in src(n.ast))]
+        before = bool(own) and all(pcfg.path([r], lambda m, o=own: m in o, include_start=False) is None for r in ranked)
+        ctx.check(bool(own) and before, "C06.DISC", f"{pk.qual}/own-file-before-mtime-rank", pk.loc(), "the picker returns the requested file before ranking state_*.json by mtime",
+                  "the picker ranks state_*.json by mtime before (or without) honouring the requested file")
+    else:
+        ctx.violation("C06.DISC", f"{pk.qual}/own-file-before-mtime-rank", pk.loc(), "the picker cannot be told which agent's snapshot to prefer")
+
+
 def run(ctx) -> None:
+    rule_own_snapshot(ctx)
     rule_records_canonical(ctx)
     rule_load_keeps_record(ctx)
     rule_table(ctx)
